@@ -305,7 +305,7 @@ def spec_text(spec, tagger):
     st = spec[2] if len(spec) > 2 else None
     pre = (tagger(st[0], st[1]) + ' ') if st else ''
     if kind == 's':
-        return pre + str(spec[1])
+        return pre + (spec[3] if len(spec) > 3 else str(spec[1]))
     if kind == 'm':
         return pre + '{' + ', '.join(f'{k}: {spec_text(c, tagger)}' for k, c in spec[1]) + '}'
     if kind == 'l':
